@@ -429,13 +429,34 @@ theorem wire_length (n : WName) : n.wire.length = encLen n.labels + 1 := by
 
 /-! ### writing a name without compression -/
 
+/-- from position `a` (where a name was just written: a label, or a bare pointer) one reads — with
+    the chunk discipline of the RFC 1035 §4.1.4 decoder started at `a` — the labels `ls`; the
+    expanded name has at most 255 octets -/
+def ReadsAt (s : State) (a : Nat) (ls : List Label) : Prop :=
+  ∃ q cs', Hop s.octets s.cursor a q ∧ ((q = a ∧ cs' = a) ∨ (q < a ∧ cs' = q)) ∧
+    NameAtC (GL s) s.octets s.cursor cs' q ls ∧ encLen ls + 1 ≤ 255
+
+/-- how names are compared in a mode: octet for octet in `CasePreserving`, ignoring ASCII case
+    otherwise -/
+def effMode (m : CMode) : CMode := if m = .casePreserving then .casePreserving else .standard
+
+theorem labelsMatch_eff {m : CMode} {a b : List Label} (h : labelsMatch m a b = true) :
+    labelsMatch (effMode m) a b = true := by
+  unfold effMode
+  split
+  · rename_i hm; rw [hm] at h; exact h
+  · exact labelsMatch_std h
+
 /-- what a name-writing routine guarantees when it starts from a valid state `s` and is given the
     name `n`: it does not panic; on success the state is valid again, the anchors it does not
     return are untouched, and the anchor it returns denotes `n` -/
 structure NameSpec (s : State) (n : WName) (r : Out WriterErr (Option Prior) × State) : Prop where
   nopanic : r.1 ≠ .panic
+  /-- … and what was written at the old cursor reads back — for the RFC decoder — as labels that
+      match the name given (octet for octet in `CasePreserving` mode, up to ASCII case otherwise) -/
   ok : ∀ p, r.1 = .ok p → WInv r.2 ∧ (∀ q, p = some q → Den r.2 q n) ∧ r.2.qname = s.qname ∧
-    r.2.mostRecentOwner = s.mostRecentOwner ∧ r.2.mostRecentNameInRdata = s.mostRecentNameInRdata
+    r.2.mostRecentOwner = s.mostRecentOwner ∧ r.2.mostRecentNameInRdata = s.mostRecentNameInRdata ∧
+    ∃ ls, ReadsAt r.2 s.cursor ls ∧ labelsMatch (effMode s.mode) n.labels ls = true
   /-- and the pointer log stays sound -/
   log : ∀ p, r.1 = .ok p → PtrLogOK s → PtrLogOK r.2
 
@@ -543,7 +564,21 @@ theorem writeUncompressedName_spec (n : WName) (s : State) (h : WInv s) (hn : n.
           hb'.1 hwf hGst hhop (Or.inl ⟨rfl, rfl⟩) hrootC g hg
         exact ⟨ls', h1, by rw [encLen_nil] at h2; omega⟩
       · exact cstored_ext e (h.clabs g hg)
-  refine ⟨hw, ?_, by rw [← hs']; rfl, by rw [← hs']; rfl, by rw [← hs']; rfl⟩
+  have hreadsU : ReadsAt s' s.cursor n.labels := by
+    have hrootC : NameAtC (GL s') s'.octets s'.cursor s.cursor (s.cursor + encLen n.labels) [] :=
+      .root (by omega) hGend (by rw [hcur]; omega) h0
+    have h255 : n.wire.length ≤ 255 := hn.2
+    have hC : NameAtC (GL s') s'.octets s'.cursor s.cursor s.cursor n.labels := by
+      cases hl : n.labels with
+      | nil => rw [hl] at hrootC; simpa using hrootC
+      | cons l ls =>
+        have := literal_chainC (a := s.cursor) (cs' := s.cursor) n.labels s.cursor (Nat.le_refl _) hb'.1 hwf hGst
+          hhop (Or.inl ⟨rfl, rfl⟩) hrootC (by rw [hl]; simp)
+        simpa [hl] using this
+    obtain ⟨_, hlt, b, hb0, hnp⟩ := nameAt_start (nameAtC_forget hC)
+    exact ⟨s.cursor, s.cursor, .here hlt hb0 hnp, Or.inl ⟨rfl, rfl⟩, hC, by omega⟩
+  refine ⟨hw, ?_, by rw [← hs']; rfl, by rw [← hs']; rfl, by rw [← hs']; rfl,
+    ⟨n.labels, hreadsU, labelsMatch_refl _ _⟩⟩
   intro q hq
   rw [← hp] at hq
   show Den s' q n
@@ -592,8 +627,8 @@ theorem literal_ptr_state {s s3 : State} (h : WInv s) (e : Ext s s3) {pre tail :
     (hq : s3.qname = s.qname) (ho : s3.mostRecentOwner = s.mostRecentOwner)
     (hr : s3.mostRecentNameInRdata = s.mostRecentNameInRdata)
     (hbound : pre ≠ [] → encLen pre + encLen tail + 1 ≤ 255) :
-    WInv s3 ∧ ∃ q, Hop s3.octets s3.cursor s.cursor q ∧ StoredAt s3 q (pre ++ tail) ∧
-      (pre ≠ [] → q = s.cursor) := by
+    WInv s3 ∧ (∃ q, Hop s3.octets s3.cursor s.cursor q ∧ StoredAt s3 q (pre ++ tail) ∧
+      (pre ≠ [] → q = s.cursor)) ∧ ReadsAt s3 s.cursor (pre ++ tail) := by
   have htail' : StoredAt s3 pp tail := storedAt_ext e htail
   obtain ⟨_, hpplt, b3, hb3, hnp3⟩ := nameAt_start htail
   have hb3' : s3.octets[pp]? = some b3 := by rw [e.pre pp hpplt]; exact hb3
@@ -611,7 +646,28 @@ theorem literal_ptr_state {s s3 : State} (h : WInv s) (e : Ext s s3) {pre tail :
   have hGst : ∀ g ∈ labelStartsFrom s.cursor pre, GL s3 g := by
     intro g hg; unfold GL; rw [hgl]; simp; left; exact hg
   obtain ⟨q, hq1, hq2, hq3⟩ := literal_chain pre s.cursor hbl hwf hGst hhop htail'
-  refine ⟨?_, q, hq1, hq2, hq3⟩
+  -- the chunk-disciplined reading of the target, in the new state
+  obtain ⟨lsT, hcT, hbT⟩ := h.clabs pp (nameAt_start htail).1
+  have hT := nameAtC_unique hcT htail
+  subst hT
+  have hc3 : NameAtC (GL s3) s3.octets s3.cursor pp pp lsT :=
+    nameAtC_frame (lo := 0) hcT (fun x hx => e.glab x hx) (fun _ _ => Nat.zero_le _)
+      (fun i _ hi => e.pre i hi) e.cur
+  have hreads : ReadsAt s3 s.cursor (pre ++ lsT) := by
+    cases hpre : pre with
+    | nil =>
+      subst hpre
+      simp only [encLen_nil, Nat.add_zero] at hhop
+      exact ⟨pp, pp, hhop, Or.inr ⟨hpplt, rfl⟩, by simpa using hc3, by simpa using hbT⟩
+    | cons l0 pre0 =>
+      have hne : pre ≠ [] := by rw [hpre]; simp
+      have hch := literal_chainC (a := s.cursor) (cs' := pp) pre s.cursor (Nat.le_refl _) hbl hwf hGst hhop
+        (Or.inr ⟨hpplt, rfl⟩) hc3 hne
+      obtain ⟨_, hlt, b, hb0, hnp⟩ := nameAt_start (nameAtC_forget hch)
+      have hbd := hbound hne
+      rw [← hpre]
+      exact ⟨s.cursor, s.cursor, .here hlt hb0 hnp, Or.inl ⟨rfl, rfl⟩, hch, by rw [encLen_append]; omega⟩
+  refine ⟨?_, ⟨q, hq1, hq2, hq3⟩, hreads⟩
   have hc12 := h.c12; have hav := h.cur_av
   refine ⟨by rw [hcur]; omega, by rw [e.available]; exact e.avail hav,
     by rw [e.available, e.size]; exact h.av_size, ?_, ?_, ?_, ?_, ?_, ?_⟩
@@ -704,11 +760,12 @@ theorem writeCompressedUnhintedName_spec (n : WName) (s : State) (h : WInv s) (h
         case lg =>
           exact ptrLog_literal (k := 0) hl e hst hpos hmax (by simp [pushed]; rfl) s.gCtx s.mode (by simp [pushed])
         simp only [Out.ok.injEq] at hp
-        obtain ⟨hw, _⟩ := literal_ptr_state (pre := []) h e (fun _ hl => by cases hl) hst hmax'
+        obtain ⟨hw, _, hrd⟩ := literal_ptr_state (pre := []) h e (fun _ hl => by cases hl) hst hmax'
           (by simpa [pushed] using bytesAt_writeAt s.octets s.cursor (ptrBytes m.priorPointer)
                 (by have : (ptrBytes m.priorPointer).length = 2 := rfl; omega))
           (by simp [pushed, encLen]; rfl) (by simp [pushed, labelStartsFrom]) rfl rfl rfl (fun hne => absurd rfl hne)
-        refine ⟨hw, ?_, rfl, rfl, rfl⟩
+        refine ⟨hw, ?_, rfl, rfl, rfl, ⟨ls, by simpa using hrd,
+          labelsMatch_eff (by have := hmatch; rw [hk0] at this; simpa using this)⟩⟩
         intro q hq
         rw [← hp] at hq
         cases hq
@@ -743,7 +800,7 @@ theorem writeCompressedUnhintedName_spec (n : WName) (s : State) (h : WInv s) (h
             rw [hwt]; rfl
           have hwfpre : LabelsWF (List.take m.startColumn n.labels) :=
             fun l hl => wf_labels hn l (List.mem_of_mem_take hl)
-          obtain ⟨hw, q, _, hq2, hq3⟩ := literal_ptr_state (pre := List.take m.startColumn n.labels) h e
+          obtain ⟨hw, ⟨q, _, hq2, hq3⟩, hrd⟩ := literal_ptr_state (pre := List.take m.startColumn n.labels) h e
             hwfpre hst hmax'
             (by
               simp only [pushed, o2, c2, ← hwt]
@@ -768,7 +825,10 @@ theorem writeCompressedUnhintedName_spec (n : WName) (s : State) (h : WInv s) (h
             omega
           rw [hq3 hne] at hq2
           refine ⟨hw, ?_, by simp only [pushed]; rw [← hs2]; rfl, by simp only [pushed]; rw [← hs2]; rfl,
-            by simp only [pushed]; rw [← hs2]; rfl⟩
+            by simp only [pushed]; rw [← hs2]; rfl, ⟨_, hrd, by
+              have := labelsMatch_append (mode := effMode s.mode)
+                (labelsMatch_refl _ (List.take m.startColumn n.labels)) (labelsMatch_eff hmatch)
+              rwa [List.take_append_drop] at this⟩⟩
           intro q' hq'
           rw [← hp] at hq'
           cases hh : hintPointerNew s.cursor with
@@ -795,7 +855,8 @@ theorem writeUnhintedName_spec (n : WName) (s : State) (h : WInv s) (hn : n.WF) 
   · exact writeCompressedUnhintedName_spec n s h hn
   · exact writeUncompressedName_spec n s h hn
 
-theorem pushHinted_spec (q : Prior) (n : WName) (s : State) (h : WInv s) (hd : Den s q n) :
+theorem pushHinted_spec (q : Prior) (n : WName) (s : State) (h : WInv s) (hd : Den s q n)
+    (hm : s.mode ≠ .casePreserving) :
     NameSpec s n (pushHinted q s) := by
   have hav := h.cur_av; have hsz := h.av_size
   have e := frame_pushHinted q s
@@ -809,12 +870,12 @@ theorem pushHinted_spec (q : Prior) (n : WName) (s : State) (h : WInv s) (hd : D
       exact ptrLog_literal (k := 0) hl e hst hpos hmax (by simp [pushed]; rfl) s.gCtx s.mode (by simp [pushed])
     simp only [Out.ok.injEq] at hp
     have hd' := hd
-    obtain ⟨_, hmax, _, ls, hst, _⟩ := hd'
-    obtain ⟨hw, _⟩ := literal_ptr_state (pre := []) h e (fun _ hl => by cases hl) hst hmax
+    obtain ⟨_, hmax, _, ls, hst, hmt⟩ := hd'
+    obtain ⟨hw, _, hrd⟩ := literal_ptr_state (pre := []) h e (fun _ hl => by cases hl) hst hmax
       (by simpa [pushed] using bytesAt_writeAt s.octets s.cursor (ptrBytes q.ptr)
             (by have : (ptrBytes q.ptr).length = 2 := rfl; omega))
       (by simp [pushed, encLen]; rfl) (by simp [pushed, labelStartsFrom]) rfl rfl rfl (fun hne => absurd rfl hne)
-    refine ⟨hw, ?_, rfl, rfl, rfl⟩
+    refine ⟨hw, ?_, rfl, rfl, rfl, ⟨ls, by simpa using hrd, by unfold effMode; rw [if_neg hm]; exact hmt⟩⟩
     intro q' hq'
     rw [← hp] at hq'
     cases hq'
@@ -838,26 +899,27 @@ theorem writeHintedName_spec (hint : Hint) (n : WName) (s : State) (h : WInv s) 
   · exact writeUncompressedName_spec n s h hn
   · split
     · exact writeCompressedUnhintedName_spec n s h hn
-    · cases hint with
+    · rename_i hncp
+      cases hint with
       | qname =>
         simp only [M.bind_apply, M.gets_apply]
         cases hq : s.qname with
         | none => exact writeCompressedUnhintedName_spec n s h hn
-        | some q => exact pushHinted_spec q n s h (hh q hq)
+        | some q => exact pushHinted_spec q n s h (hh q hq) hncp
       | mostRecentOwner =>
         simp only [M.bind_apply, M.gets_apply]
         cases hq : s.mostRecentOwner with
         | none => exact writeCompressedUnhintedName_spec n s h hn
-        | some q => exact pushHinted_spec q n s h (hh q hq)
+        | some q => exact pushHinted_spec q n s h (hh q hq) hncp
       | mostRecentNameInRdata =>
         simp only [M.bind_apply, M.gets_apply]
         cases hq : s.mostRecentNameInRdata with
         | none => exact writeCompressedUnhintedName_spec n s h hn
-        | some q => exact pushHinted_spec q n s h (hh q hq)
+        | some q => exact pushHinted_spec q n s h (hh q hq) hncp
       | explicit p =>
         simp only [M.bind_apply, M.gets_apply]
         split
-        · rename_i hp; exact pushHinted_spec _ n s h (hh hp)
+        · rename_i hp; exact pushHinted_spec _ n s h (hh hp) hncp
         · exact writeCompressedUnhintedName_spec n s h hn
       | none => exact writeCompressedUnhintedName_spec n s h hn
 
